@@ -175,7 +175,7 @@ GapOK(v, a, b, g) == (\A i \in 1..Len(g) : g[i] \in SepItems(v)) /\ (<<a, b>> \i
 Layouts(v) ==
   IF v = "1.0" THEN [min |-> <<>>, spaced |-> <<"sp">>, wide |-> <<"sp", "nl", "tab", "sp">>, long |-> <<"wsl">>]
   ELSE [min |-> <<>>, wide |-> <<"sp", "nl", "tab", "sp">>, comment |-> <<"sp", "cn", "sp">>,
-        comments |-> <<"c", "cn", "sp", "c", "nl", "c">>, long |-> <<"cl", "wsl", "ch">>,
+        comments |-> <<"c", "cn", "sp", "c", "nl", "c">>, long |-> <<"cl", "wsl">>, huge |-> <<"ch", "nl", "cl">>,
         tightcomment |-> <<"c0">>]
 LayoutsOK == \A v \in AllVersions : \A n \in DOMAIN Layouts(v) : GapOK(v, "(", "(", Layouts(v)[n])
 
